@@ -7,6 +7,7 @@ import TTModel.Trunc
 import TTModel.Shape
 import TTModel.Heap
 import TTModel.Guard
+import TTModel.Guard2
 import TTModel.Sweep
 import TTModel.Kernels
 import TTModel.Cross
@@ -340,6 +341,24 @@ def run : PM String := do
       let dims ← natList
       let (o, sw) := Sweep.permuteOrder dims
       pure s!"order {o} swaps {sw.length}"
+  | "guard2" => do
+      let name ← next
+      let o ← (match name with
+        | "dot" => do let a ← guardSh; let b ← guardSh; pure (Guard.guardDot a b)
+        | "bilinear" => do let x ← guardSh; let A ← guardSh; let y ← guardSh; pure (Guard.guardBilinear x A y)
+        | "kron" => do let a ← guardSh; let b ← guardSh; pure (Guard.guardKron a b)
+        | "truediv" => do let a ← guardSh; let b ← guardSh; pure (Guard.guardTruediv a b)
+        | "fast_matvec" => do let a ← guardSh; let b ← guardSh; pure (Guard.guardFastMatvec a b)
+        | "amen_solve" => do let a ← guardSh; let b ← guardSh; let p ← nat; pure (Guard.guardAmenSolve a b (p == 1))
+        | "permute" => do let d ← nat; let dims ← natList; pure (Guard.guardPermute d dims)
+        | "reshape" => do let N ← natList; let sh ← natList; pure (Guard.guardReshape N sh)
+        | "cat" => do let a ← guardSh; let b ← guardSh; let dim ← nat; pure (Guard.guardCat a b dim)
+        | "mprod" => do let x ← guardSh; let mode ← nat; let cols ← nat; pure (Guard.guardMprod x mode cols)
+        | "pad" => do let d ← nat; let k ← nat; pure (Guard.guardPad d k)
+        | _ => throw s!"guard2? {name}" : PM Guard.Outcome)
+      match o with
+      | .ok => pure "ok"
+      | .err e => pure (showErr e)
   | "heapeffect" => do
       let name ← next; let t ← nat
       pure s!"sc {if Heap.writeAllowed name (t == 1) then 1 else 0}"
